@@ -150,6 +150,8 @@ inductive Ty where
   | fp25519
   | share (t : Ty)
   | arr (n : Nat) (t : Ty)
+  /-- a record of two differently typed fields (`PrfHybridReport`: match key ‖ value ‖ breakdown key) -/
+  | pair (a b : Ty)
 
 @[reducible] def Ty.Val : Ty → Type
   | .prime _ => Nat
@@ -158,6 +160,7 @@ inductive Ty where
   | .fp25519 => Nat
   | .share t => t.Val × t.Val
   | .arr _ t => List t.Val
+  | .pair a b => a.Val × b.Val
 
 def codecOf : (t : Ty) → Codec t.Val
   | .prime P => primeCodec P
@@ -166,6 +169,7 @@ def codecOf : (t : Ty) → Codec t.Val
   | .fp25519 => fp25519Codec
   | .share t => pairCodec (codecOf t) (codecOf t)
   | .arr n t => arrCodec (codecOf t) n
+  | .pair a b => pairCodec (codecOf a) (codecOf b)
 
 /-- Leaves of a value in wire order, as naturals (`Boolean` as 0/1). -/
 def leaves : (t : Ty) → t.Val → List Nat
@@ -179,10 +183,12 @@ def leaves : (t : Ty) → t.Val → List Nat
       | [] => []
       | x :: xs => leaves t x ++ go xs
     go vs
+  | .pair a b, v => leaves a v.1 ++ leaves b v.2
 
 def leafCount : Ty → Nat
   | .share t => 2 * leafCount t
   | .arr n t => n * leafCount t
+  | .pair a b => leafCount a + leafCount b
   | _ => 1
 
 /-- Rebuild a value from its leaves (inverse of `leaves`); `none` if too few leaves. -/
@@ -203,6 +209,10 @@ def build : (t : Ty) → List Nat → Option (t.Val × List Nat)
           let (xs, r2) ← go k r1
           pure (x :: xs, r2)
     go n ls
+  | .pair a b, ls => do
+      let (x, r1) ← build a ls
+      let (y, r2) ← build b r1
+      pure ((x, y), r2)
   | _, [] => none
 
 end IpaVerif.Serde
